@@ -181,6 +181,22 @@ def essWith (acov : List α → List α) (data : List (List α)) (w v : α) : Li
 
 def ess (data : List (List α)) (w v : α) : List α × α × α := essWith autocov data w v
 
+/-- `withinvar_from_cs` for one parameter: `(within, var⁺)` from the per-chain `(n, mean, sm2)` -/
+def collectWV (stats : List (Nat × α × α)) : α × α :=
+  let m := stats.length
+  let means := stats.map fun s => s.2.1
+  let within := mean (stats.map fun s => s.2.2)
+  let gm := mean means
+  let between := sum (means.map fun x => sq (x - gm)) / ((m - 1 : Nat) : α)
+  let n : α := sum (stats.map fun s => ((s.1 : Nat) : α)) / (m : α)
+  (within, between + within * ((n - ((1 : Nat) : α)) / n))
+
+/-- `ess_from_chainstats` for one parameter: the ESS of the *unsplit* chains with `W`, `var⁺` taken from the trackers'
+    statistics (stats.rs 665-668) -/
+def essFromChainStats (chains : List (List α)) (stats : List (Nat × α × α)) : α :=
+  let wv := collectWV stats
+  (ess chains wv.1 wv.2).2.2
+
 /-- `split_rhat_mean_ess` for one parameter on the *unsplit* [chain][draw] data: returns `(rhat², ess)`. -/
 def splitRhatSqEss (acov : List α → List α) (chains : List (List α)) : α × α :=
   let data := splitcat chains
